@@ -16,7 +16,7 @@ open ClockBound ClockBound.Rs ClockBound.Generated
 
 /-- one status at a time (the status decides which arm of the `match` runs) -/
 macro "client_tie" : tactic => `(tactic| (
-  simp (maxSteps := 400000) [rs_eval, rs_code, recordValue, ctimespecValue, statusValue]
+  simp (maxSteps := 400000) [rs_eval, chkInt, rs_code, recordValue, ctimespecValue, statusValue]
   generalize hM : computeBoundAt _ _ _ = M
   simp only [orPanicO]
   repeat' split
